@@ -223,6 +223,9 @@ func runC05(ctx *core.Ctx) {
 	// ------------------------------------------------------------ 0. tracker and plain ExtendService
 	genTrackerAndExtend(ctx)
 
+	// ------------------------------------------------------------ 0b. deepClone on the real heap (c05clone.go)
+	genClone(ctx)
+
 	// ------------------------------------------------------------ 1. exhaustive small scope
 	// two files (main M, proj/o.yaml O) × names {a,b}; every node: absent | plain | extends a/b same file |
 	// extends a/b in the other file | extends a/b in its own file through the `file:` form      (8^4 = 4096 trees)
